@@ -31,6 +31,9 @@ def correspond(model_ok, res):
     n = 300 if quick else 3000
     for _ in range(n):
         strings.append(PG.layout(r, g.expr(r.randrange(0, 4)), minimal=True))
+    # structured corpus (prefix chains x operand kinds x contexts); a seeded third of it in the quick tier
+    sc = PG.structured_corpus()
+    strings += sc if not quick else r.sample(sc, len(sc) // 3)
     # layout variants: the same token sequence with two different layouts
     pairs = []
     for _ in range(150 if quick else 1500):
@@ -84,6 +87,22 @@ def correspond(model_ok, res):
                 "accepted input longer than 4 chars")
     res.samples = strings[-5:] + [list(pairs[0])]
     res.distribution = {"outcomes": kinds, "layout_pairs": len(pairs), "layout_pairs_judged": judged}
+    # clause (b), independent of the model: AND OR NOT TO are the only reserved words, and only as whole,
+    # unescaped tokens; everything else between two words is a third word of an implicit operation
+    plain = ["&&", "||", "!", "and", "or", "not", "to", "And", "AND1", "xAND", "\\AND", "ANDNOT", "AND_", "&", "|",
+             "OR.", "N0T", "\\OR", "T0", "nOT", "XOR", "ET", "&&&", "AND&&"]
+    for w in plain:
+        k, v = PG.impl_parse("a %s b" % w, parser.parse)
+        ok = (k == "ok" and type(v) is T.UnknownOperation and len(v.children) == 3
+              and all(type(c) is T.Word for c in v.children) and v.children[1].value == w)
+        if not ok:
+            res.failures.append(({"input": "a %s b" % w, "implementation": repr(v) if k == "ok" else k,
+                                  "why": "%r is not a reserved word: it should be a plain term between two terms" % w},
+                                 None))
+    for w, cls in (("AND", T.AndOperation), ("OR", T.OrOperation)):
+        k, v = PG.impl_parse("a %s b" % w, parser.parse)
+        if not (k == "ok" and type(v) is cls and len(v.children) == 2):
+            res.failures.append(({"input": "a %s b" % w, "why": "reserved word not read as the operator"}, None))
     if not model_ok:
         res.model_error = "model did not build"
         return
